@@ -908,7 +908,9 @@ def _make_exprlike_fst(  # TODO: this needs a refactor, cleanup and simplificati
         ):  # veeery special case "3.__abs__()" -> "(3).__abs__()"
             return True
 
-        if not self._is_enclosed_in_parents(field) and not put_fst._is_enclosed_or_line(check_pars=adding):
+        if (not self._is_enclosed_in_parents(field)
+            and not (put_ast.value.f if put_is_star else put_fst)._is_enclosed_or_line(check_pars=adding)  # the parentheses in question are those of the value if is Starred
+        ):
             return True
 
         if put_ast.__class__ is Lambda:  # Lambda inside FormattedValue/Interpolation needs pars
